@@ -44,7 +44,8 @@ type adapter struct {
 	combined func(m, n *big.Int, q pt) pt
 	// aliased call forms of the API (receiver = operand, both operands the same object, …); P and Q are
 	// private copies that the call may overwrite; only the returned value is asserted.
-	aliasOps []aliasOp
+	aliasOps  []aliasOp
+	observers []observer
 	// predicates
 	isEqual    func(p, q pt) bool
 	isIdentity func(p pt) bool
@@ -73,6 +74,22 @@ type aliasOp struct {
 	run  func(P, Q pt, k *big.Int) pt
 	exp  func(a, b, k *big.Int) *big.Int
 }
+
+// noHist: forms that write into Q (their second operand) cannot be used as "pool[i] = op(pool[i], pool[j])".
+var noHist = map[string]bool{"z.Add(x,z)": true, "Q.Add(P,Q)": true, "g.Add(P,g)": true}
+
+// observer is a read-only method called on the object itself (not on a copy): encoders, normalisers,
+// predicates. run renders what it returned, want gives the expected rendering from the model exponents.
+type observer struct {
+	name string
+	run  func(p, q pt) string
+	want func(ad *adapter, a, b *big.Int) string
+}
+
+func wantEnc(ad *adapter, a, b *big.Int) string  { return ad.want(a) }
+func wantEq(ad *adapter, a, b *big.Int) string   { return fmt.Sprint(a.Cmp(b) == 0) }
+func wantId(ad *adapter, a, b *big.Int) string   { return fmt.Sprint(a.Sign() == 0) }
+func wantTrue(ad *adapter, a, b *big.Int) string { return "true" }
 
 func expSum(a, b, k *big.Int) *big.Int { return new(big.Int).Add(a, b) }
 func expDbl(a, b, k *big.Int) *big.Int { return new(big.Int).Lsh(a, 1) }
@@ -581,6 +598,11 @@ func runAdapter(t *testing.T, ad *adapter, nq, nt int) {
 	}
 	t.Run(ad.name+"-sweep", func(t *testing.T) { sweep(t, ad, vlib.N(24, 400)) })
 	t.Run(ad.name+"-concurrent", func(t *testing.T) { concurrent(t, ad) })
+	if len(ad.observers) > 0 {
+		t.Run(ad.name+"-history", func(t *testing.T) {
+			vlib.Check(t, vlib.N(nq/8+8, nt/8+32), func(t *rapid.T) { history(t, ad) })
+		})
+	}
 }
 
 // denseNegative returns a scalar whose width-w NAF has the digit −d at every w-th position (and one
@@ -953,4 +975,113 @@ func runSpecialW(t *testing.T, ad *adapter, nq int) {
 		}
 		vlib.Check(t, vlib.N(nq, 4*nq), func(t *rapid.T) { specialCase(t, ad, sp) })
 	})
+}
+
+// history is a state machine over a small pool of point objects: in-place / aliased operations, fresh
+// assignments and observers (encoders, normalisers, predicates called on the objects themselves) in any
+// order. Every object has a model exponent; after every step every object must still represent
+// (model exponent)·G — observers must not change the value an object represents, and an object that
+// has been observed must keep working as an operand.
+func history(t *rapid.T, ad *adapter) {
+	sub := "history/" + ad.name
+	const N = 4
+	pool := make([]pt, N)
+	exps := make([]*big.Int, N)
+	observed := make([]bool, N)
+	var trace []string
+	fresh := func(t *rapid.T, i int) {
+		a, _ := drawExp(t, ad, "a")
+		form := "decoded"
+		pool[i] = ad.mk(a)
+		if ad.projective && ad.add != nil && rapid.Bool().Draw(t, "unnormalised") {
+			pool[i], form = unnormalised(t, ad, a, "form")
+		}
+		exps[i], observed[i] = a, false
+		trace = append(trace, fmt.Sprintf("o%d := %s·G (%s)", i, a.Text(16), form))
+	}
+	for i := range pool {
+		fresh(t, i)
+	}
+	last := "init"
+	usedAfterObserver, nObs, nOps := 0, 0, 0
+	failed := false
+	check := func(t *rapid.T) {
+		if failed {
+			return
+		}
+		for i := range pool {
+			if got, want := ad.enc(pool[i]), ad.want(exps[i]); got != want {
+				failed = true
+				key := fmt.Sprintf("C13/%s.history/wrong-after-%s", ad.name, last)
+				if len(trace) > 12 {
+					trace = append([]string{"…"}, trace[len(trace)-12:]...)
+				}
+				vlib.Report(t, key, fmt.Sprintf("object o%d: got %s want %s·G = %s; history: %s", i, got, exps[i].Text(16), want, strings.Join(trace, "; ")))
+				return
+			}
+		}
+	}
+	actions := map[string]func(*rapid.T){"": check}
+	actions["assign"] = func(t *rapid.T) {
+		fresh(t, rapid.IntRange(0, N-1).Draw(t, "i"))
+		last = "assign"
+	}
+	for _, op := range ad.aliasOps {
+		op := op
+		if noHist[op.name] {
+			continue
+		}
+		actions["op:"+op.name] = func(t *rapid.T) {
+			if failed {
+				return
+			}
+			i := rapid.IntRange(0, N-1).Draw(t, "i")
+			j := rapid.IntRange(0, N-1).Draw(t, "j")
+			var k *big.Int
+			if rapid.Bool().Draw(t, "ksmall") {
+				k = big.NewInt(int64(rapid.IntRange(0, 20).Draw(t, "kval")))
+			} else {
+				k, _ = drawScalar(t, ad, "k")
+			}
+			if observed[i] || observed[j] {
+				usedAfterObserver++
+			}
+			e := op.exp(exps[i], exps[j], k)
+			pool[i] = op.run(pool[i], pool[j], k)
+			exps[i] = e.Mod(e, ad.r)
+			observed[i] = false
+			nOps++
+			last = "op:" + op.name
+			trace = append(trace, fmt.Sprintf("o%d = %s(o%d, o%d, k=%s)", i, op.name, i, j, k.Text(16)))
+			vlib.Class(sub, last)
+		}
+	}
+	for _, ob := range ad.observers {
+		ob := ob
+		actions["observe:"+ob.name] = func(t *rapid.T) {
+			if failed {
+				return
+			}
+			i := rapid.IntRange(0, N-1).Draw(t, "i")
+			j := rapid.IntRange(0, N-1).Draw(t, "j")
+			got, want := ob.run(pool[i], pool[j]), ob.want(ad, exps[i], exps[j])
+			observed[i] = true
+			nObs++
+			last = "observe:" + ob.name
+			trace = append(trace, fmt.Sprintf("%s(o%d, o%d)", ob.name, i, j))
+			vlib.Class(sub, last)
+			if got != want {
+				failed = true
+				vlib.Report(t, fmt.Sprintf("C13/%s.%s/wrong-in-history", ad.name, ob.name), fmt.Sprintf("got %s want %s; history: %s", got, want, strings.Join(trace, "; ")))
+			}
+		}
+	}
+	t.Repeat(actions)
+	vlib.Eval(sub)
+	vlib.EvalN(sub+"/steps", int64(nOps+nObs))
+	if usedAfterObserver > 0 && !failed {
+		vlib.Class(sub, "operand-after-observer")
+		vlib.NonTrivial(sub, "operand-after-observer", []byte(strings.Join(trace, ";")))
+		vlib.Sample(sub, "history", ad.name+": "+strings.Join(trace, "; "))
+	}
 }
